@@ -128,6 +128,9 @@ def run_case(key):
         except Exception as e:
             res["notes"]["rejected_updates"] = res["notes"].get("rejected_updates", 0) + 1
             res["outcomes"].append("exc:" + type(e).__name__)
+            if isinstance(e, H.UpdateTimeout):
+                V(res, key, "update_returns", {"exception": "UpdateTimeout", "limit_s": H.UPDATE_LIMIT_S}, hist="/".join(st.hist + [H.letter_name(lt)]))
+                raise H.StopExploration()
             # a failed update must still not have altered what is stored (append-only)
             if H.snapshot_hashes(child.m) != st.aux["hashes"]:
                 V(res, key, "append_only", {"after_exception": type(e).__name__}, hist="/".join(st.hist + [H.letter_name(lt)]))
@@ -148,20 +151,23 @@ def run_case(key):
     else:  # long chains over a span of strain 1 (unit strain rate => time span 1)
         fl = key["flow"]
         nt = 0
-        for k in CHAIN_K:
-            st = root
-            for i in range(k):
-                st = step(st, (fl, 1.0 / k))
-                nt += 1
-                if st is None:
-                    break
-        for comp in COMPOSITIONS:
-            st = root
-            for c in comp:
-                st = step(st, (fl, 0.25 * c))
-                nt += 1
-                if st is None:
-                    break
+        try:
+            for k in CHAIN_K:
+                st = root
+                for i in range(k):
+                    st = step(st, (fl, 1.0 / k))
+                    nt += 1
+                    if st is None:
+                        break
+            for comp in COMPOSITIONS:
+                st = root
+                for c in comp:
+                    st = step(st, (fl, 0.25 * c))
+                    nt += 1
+                    if st is None:
+                        break
+        except H.StopExploration:
+            pass
         res["states"], res["trans"] = nt + 1, nt
     res["outcomes"] += obs[:50]
     res["obs"] = digest(*obs)
